@@ -2,6 +2,7 @@ package checks
 
 import (
 	"fmt"
+	"regexp"
 	"strings"
 
 	"verifharness/internal/core"
@@ -30,10 +31,10 @@ func docHasNonASCII(doc string) bool { return !isASCII(doc) }
 
 func init() {
 	register("C06", func(c *engine.Ctx) {
-		c.Rule = "one string field per program: {minLength,maxLength,pattern} presence x position (required/optional/nullable/definition/nested/optional-with-a-valid-default) x strings of length limit-1, limit, limit+1 in ASCII and in 2-, 3-, 4-byte characters x matching / non-matching text for each pattern form; plus absent and null. The reference verdict is judged on ASCII documents (scope F06; byte counting is known finding K1), model = implementation on all. Distinct = distinct (labels, reference verdict, real verdict, document shape)."
+		c.Rule = "one string field per program: {minLength,maxLength,pattern} presence x position (required/optional/nullable/definition/nested/optional-with-a-valid-default) x strings of length limit-1, limit, limit+1 in ASCII and in 2-, 3-, 4-byte characters x matching / non-matching text for each pattern form; plus absent and null; plus pattern fidelity: 15 patterns with characters that are awkward in generated source (literal line feed, tab, CR, quotes, backslash escapes, %, non-ASCII) x 19 documents x 3 positions, judged by regexp.MatchString on the schema's own pattern. The reference verdict is judged on ASCII documents (scope F06; byte counting is known finding K1), model = implementation on all. Distinct = distinct (labels, reference verdict, real verdict, document shape)."
 		c.Proofs([]string{"GJS.Props.C06"}, []string{
 			"GJS.Props.C06.ascii_bytes_eq_length", "GJS.Props.C06.string_check_exact_ascii", "GJS.Props.C06.string_check_exact_pattern_only",
-			"GJS.Props.C06.absent_or_null_unchecked", "GJS.Props.C06.present_checked", "GJS.Props.C06.KF_bytes_counterexample",
+			"GJS.Props.C06.absent_or_null_unchecked", "GJS.Props.C06.present_checked", "GJS.Props.C06.KF_bytes_counterexample", "GJS.Props.C06.KF_carriage_return_discarded", "GJS.Props.C06.rawStringValue_of_noCR",
 		})
 		var pcs []*core.PCase
 		patterns := []string{"", "^a", "z$", "^abc$", "b", "^[a-z]*$", "^[0-9]+$"}
@@ -107,11 +108,65 @@ func init() {
 				}
 			}
 		}
+		// pattern fidelity: the emitted code must apply EXACTLY the schema's pattern (Go RE2 semantics).  Patterns and
+		// documents with characters that are awkward inside generated source text: a literal line feed, tab, carriage
+		// return, quotes, backslash escapes, %, non-ASCII.  The expectation is regexp.MatchString on the schema's
+		// pattern itself — independent of the model, whose closed pattern family does not contain these.
+		hostilePatterns := []string{"^[^\n]*$", "^key\nvalue$", "a\nb", "\t", "^[^\t]+$", "\r\n", "^\"q\"$", "'", "^a\\.b$", "\\d+%", "^%s$", "^[äöü]+$", "日本", "^\\s*$", "^a\n\tb$"}
+		hostileDocs := []string{"", "a", "ab", "a\nb", "a\n\tb", "col1\tcol2", "key\nvalue", "key\n\tvalue", "\r\n", "\"q\"", "it's", "a.b", "axb", "12%", "%s", "äö", "日本語", " \t ", "x\ty\nz"}
+		var fidelity []*core.PCase
+		for _, pat := range hostilePatterns {
+			for _, pos := range []Position{PosRequired, PosOptional, PosDef} {
+				schema, mk := fieldProgram(pos, M{"type": "string", "pattern": pat})
+				var docs []any
+				for _, d := range hostileDocs {
+					docs = append(docs, mk(d, false))
+				}
+				fidelity = append(fidelity, baseCase("c06-pattern-fidelity", schema, docs, pat, string(pos)))
+			}
+		}
+		fres := runCases(c, fidelity)
+		fidFails := 0
+		for _, r := range fres {
+			pat := r.Case.Labels[0]
+			re, err := regexp.Compile(pat)
+			if err != nil {
+				continue
+			}
+			if strings.Contains(pat, "\r") {
+				// Go discards carriage returns inside raw string literals: listed finding K31, replayed separately
+				c.Count("c06", "pattern with a carriage return (K31 region, skipped)")
+				continue
+			}
+			if r.RunsJ == nil {
+				if r.Real.Unformatted || r.Real.ParseErr != "" {
+					c.Count("c06", "pattern not expressible in the emitted text (K5 class, skipped)")
+					continue
+				}
+				fidFails++
+				c.Fail("oracle", fmt.Sprintf("pattern %q: the program does not generate/compile: %s", pat, r.Real.ErrMsg+clip(r.CompileErr, 200)), replayOf(r, -1, nil), false)
+				continue
+			}
+			for i, rr := range r.RunsJ {
+				want := "reject"
+				if re.MatchString(hostileDocs[i]) {
+					want = "ok"
+				}
+				c.Eval(fmt.Sprintf("pattern-fidelity|%s|%s|%d|%s", pat, r.Case.Labels[1], i, rr.Kind))
+				if rr.Kind != want {
+					fidFails++
+					if fidFails <= 3 {
+						c.Fail("oracle", fmt.Sprintf("pattern %q on %q: the generated code says %s, the pattern itself (regexp.MatchString) says %s", pat, hostileDocs[i], rr.Kind, want), replayOf(r, i, nil), false)
+					}
+				}
+			}
+		}
 		res := runCases(c, pcs)
 		fails := verdictOracle(c, res, "string length / pattern", func(r *core.PResult, i int) bool {
 			// byte counting (K1): only ASCII documents are in scope when a length keyword is present
 			return docHasNonASCII(r.DocJSON[i]) && (strings.Contains(string(r.SchemaJSON), "Length"))
 		})
+		fails += fidFails
 		for _, r := range res {
 			if len(c.Samples) < 6 && len(r.DocJSON) > 1 {
 				c.Sample(M{"schema": string(r.SchemaJSON), "doc": r.DocJSON[1]})
@@ -327,7 +382,7 @@ func init() {
 	})
 
 	register("C08", func(c *engine.Ctx) {
-		c.Rule = "enum lists of every shape (strings, untyped ints, numbers, booleans, mixed, with null; typed string/integer/number/boolean; members of different JSON types that print alike — true/\"true\", 1/\"1\", null/\"<nil>\", 1.5/\"1.5\" — and repeated members; typed enums that also state bounds or lengths, incl. bounds beyond 32 bits) used inline (required/optional), as array items, via $ref (typed definitions) and with a default, x every member and non-members of every JSON type. Judged: verdict = reference; accepted values marshal back unchanged; string enums expose one constant per value with that value and distinct names. Distinct = distinct (shape, position, verdicts, document shape)."
+		c.Rule = "enum lists of every shape (strings, untyped ints, numbers, booleans, mixed, with null; typed string/integer/number/boolean; members of different JSON types that print alike — true/\"true\", 1/\"1\", null/\"<nil>\", 1.5/\"1.5\" — and repeated members; members containing %, quotes, backslashes, line feeds, non-ASCII, template syntax; typed enums that also state bounds or lengths, incl. bounds beyond 32 bits) used inline (required/optional), as array items, via $ref (typed definitions) and with a default, x every member and non-members of every JSON type. Judged: verdict = reference; accepted values marshal back unchanged; string enums expose one constant per value with that value and distinct names. Distinct = distinct (shape, position, verdicts, document shape)."
 		c.Proofs([]string{"GJS.Props.C08"}, []string{
 			"GJS.Props.C08.string_enum_membership", "GJS.Props.C08.number_enum_membership", "GJS.Props.C08.bool_enum_membership",
 			"GJS.Props.C08.mixed_enum_membership_json", "GJS.Props.C08.wrapped_marshal_roundtrip", "GJS.Props.C08.plain_marshal_roundtrip",
@@ -354,6 +409,10 @@ func init() {
 			"text-twins-rev":   {"enum": []any{"true", "1", true, 1}},
 			"repeated-strings": {"type": "string", "enum": []any{"x", "y", "x"}},
 			"repeated-ints":    {"enum": []any{1, 2, 1}},
+			// members with text that is awkward in generated source or in a format string
+			"percent-strings": {"type": "string", "enum": []any{"50%off", "10%off", "none", "100%", "%s"}},
+			"percent-mixed":   {"enum": []any{"5% flat", 5, nil}},
+			"hostile-strings": {"type": "string", "enum": []any{"a\"b", "back\\slash", "new\nline", "tab\there", "日本", "it's", "{{x}}", "$1"}},
 			// typed integer enums that also state bounds (the carrier type is chosen from type AND bounds)
 			"typed-integer-bounded":    {"type": "integer", "enum": []any{1, 2, 3}, "minimum": 0, "maximum": 10},
 			"typed-integer-big-max":    {"type": "integer", "enum": []any{1073741824, 4294967296, 8589934592}, "maximum": 8589934592},
@@ -363,7 +422,8 @@ func init() {
 			"typed-string-constrained": {"type": "string", "enum": []any{"red", "green"}, "minLength": 3},
 		}
 		probes := []any{"red", "green", "x y", "blue", "a", "only", "", "RED", 1, 2, 3, 10, -1, 0, 1.5, 2.5, 3.25, true, false, nil, []any{}, M{}, []any{"red"}, "b", "l", "m",
-			"true", "false", "1", "2", "auto", "<nil>", "null", "1.5", "x", "y", 1073741824, 4294967296, 8589934592, -8589934592, 5, 4}
+			"true", "false", "1", "2", "auto", "<nil>", "null", "1.5", "x", "y", "50%off", "10%off", "none", "100%", "%s", "50%!o(MISSING)ff", "5% flat",
+			"a\"b", "back\\slash", "new\nline", "tab\there", "日本", "it's", "{{x}}", "$1", "new", 1073741824, 4294967296, 8589934592, -8589934592, 5, 4}
 		var pcs []*core.PCase
 		for _, name := range core.SortedKeys(shapes) {
 			sh := shapes[name]
@@ -387,7 +447,7 @@ func init() {
 					schema = M{"type": "object", "properties": M{"v": M{"$ref": "#/$defs/E"}}, "required": []any{"v"}, "$defs": M{"E": sh}}
 					mk = func(v any) any { return M{"v": v} }
 				case "default":
-					if name == "mixed" || name == "mixed-null" || strings.HasPrefix(name, "text-twins") {
+					if name == "mixed" || name == "mixed-null" || name == "percent-mixed" || strings.HasPrefix(name, "text-twins") {
 						continue // default on a struct-wrapped enum: ill-typed literal, known finding K4
 					}
 					withDef := M{}
